@@ -186,6 +186,7 @@ var forestShapes = []shapeDef{
 	{name: "file-local-ref-under-inline-items", ext: true, schemaOnly: true},
 	{name: "two-files-same-component-name", ext: true},
 	{name: "same-file-two-spellings", ext: true},
+	{name: "same-path-tail-under-two-ancestors", ext: true, schemaOnly: true}, // the name resolver is the same for every kind
 	{name: "fragment-of-whole-file-component", ext: true, nested: true},
 	{name: "escaped-key:tilde-one", schemaOnly: true},
 	{name: "escaped-key:slash", schemaOnly: true},
@@ -396,6 +397,19 @@ func BuildForest(kind, shape string, pos Position, layout, spelling, entry strin
 		files[f2Loc] = componentsDoc(map[string]map[string]any{sec: {"Tgt": t2}})
 		addComponent(root, sec, "Second", map[string]any{"$ref": relRef(rootLoc, f2Loc, "plain") + frag(sec, "Tgt")})
 		planted = r1 + frag(sec, "Tgt")
+	case "same-path-tail-under-two-ancestors":
+		// two different files whose paths end alike (common/x.json) below the root's directory and below its parent,
+		// both defining a component of the same name: two distinct targets
+		dir := path.Dir(rootLoc)
+		g1, g2 := path.Join(dir, "common/x.json"), path.Join(path.Dir(dir), "common/x.json")
+		t1 := targetObject(kind, "")
+		t2 := targetObject(kind, "")
+		markTarget(kind, t1, "TARGET-BELOW-THE-ROOT-DIRECTORY")
+		markTarget(kind, t2, "TARGET-BELOW-ITS-PARENT")
+		files[g1] = componentsDoc(map[string]map[string]any{sec: {"Tgt": t1}})
+		files[g2] = componentsDoc(map[string]map[string]any{sec: {"Tgt": t2}})
+		addComponent(root, sec, "Second", map[string]any{"$ref": relRef(rootLoc, g2, "plain") + frag(sec, "Tgt")})
+		planted = relRef(rootLoc, g1, spelling) + frag(sec, "Tgt")
 	case "same-file-two-spellings":
 		files[f1Loc] = componentsDoc(map[string]map[string]any{sec: {"Tgt": targetObject(kind, "")}})
 		addComponent(root, sec, "Second", map[string]any{"$ref": relRef(rootLoc, f1Loc, "detour") + frag(sec, "Tgt")})
